@@ -86,7 +86,7 @@ struct Interp {
             VT_CHECK(ctx, read(survivor) == orig, "mismatch", "independence:" << cn << "; after mutating the " << (victim ? "copy" : "original") << " (kind " << kind << ") the other reads " << read(survivor) << " instead of " << orig);
             LA(ob_mutate(victim, kind2, mw.c_str()));
             VT_CHECK(ctx, read(survivor) == orig, "mismatch", "independence:" << cn << "; after a second mutation of the " << (victim ? "copy" : "original") << " the other reads " << read(survivor) << " instead of " << orig);
-            if (kind == 2 || kind2 == 2) { LA(ob_done(victim)); VT_CHECK(ctx, read(survivor) == orig, "mismatch", "independence-after-done:" << cn << "; emptying one side changed the other"); ctx.label("empty-one-side"); }
+            if (kind == 2 || kind2 == 2) { LA(ob_done(victim)); VT_CHECK(ctx, LA(ob_type_ok(victim)), "mismatch", "type-after-done:" << cn << "; an emptied object no longer names its class"); VT_CHECK(ctx, read(survivor) == orig, "mismatch", "independence-after-done:" << cn << "; emptying one side changed the other"); ctx.label("empty-one-side"); }
         }
         VT_CHECK(ctx, LA(ob_del(victim)) == 1, "mismatch", "del; del returned FALSE");
         ctx.label(victim ? "delete-copy-then-read-original" : "delete-original-then-read-copy");
